@@ -870,6 +870,25 @@ type Tagged interface {
 flagsets("unicode", "adv/unicode", ["Café"], modes=("", "mocks"))
 flagsets("unicode-tag", "adv/unicode", ["Tagged"], modes=("", "mocks"))
 
+# the usual layout: a sub-directory called like the -pkg value already holds that package
+FILES["adv/withmocks/a.go"] = """package withmocks
+
+import "context"
+
+type Item struct{ ID string }
+
+type Store interface {
+	Get(ctx context.Context, id string) (*Item, error)
+	All() []Item
+}
+"""
+FILES["adv/withmocks/mocks/doc.go"] = """// Package mocks holds generated mocks.
+package mocks
+"""
+FILES["adv/withmocks/withmocks_test/doc.go"] = """package withmocks_test
+"""
+flagsets("withmocks", "adv/withmocks", ["Store"], modes=("mocks", "withmocks_test", "other"))
+
 # D31: goimports, sibling files and a package name that cannot be guessed from the path
 FILES["adv/goimp/a.go"] = """package goimp
 
